@@ -24,7 +24,7 @@ fn leaf_coord(d: &tr::Dag, id: u32) -> Option<u32> {
 
 /// events of one execution, in execution order
 /// `order`: removal order observed on the same point (f64 run, O3 log), when it is unambiguous.
-pub fn events_of(d: &tr::Dag, obs: Option<&Obs<Tr>>, outcome: &Outcome, log: &[(String, Value)], lattice: &[Option<(i64, i64)>], order: Option<&[usize]>) -> Vec<Value> {
+pub fn events_of(d: &tr::Dag, obs: Option<&Obs<Tr>>, outcome: &Outcome, log: &[(String, Value)], lattice: &[Option<(i64, i64)>], order: Option<&[usize]>, allowed: &[f64]) -> Vec<Value> {
     let leafsets = d.leaf_sets();
     // merged timeline: (position, order-within, item)
     enum It<'a> { Node(u32), Ev(&'a Event) }
@@ -136,6 +136,35 @@ pub fn events_of(d: &tr::Dag, obs: Option<&Obs<Tr>>, outcome: &Outcome, log: &[(
             }
         }
     }
+    // ---- C19: f64 constants that flow into the returned values must be constants of the table (or the
+    // documented settings), the Gamma variate being the one data-dependent exception
+    if let Some(o) = obs {
+        let mut roots: Vec<u32> = vec![o.u.id, o.v.id, o.jacobian.id];
+        for k in &o.loop_momenta { for t in k { roots.push(t.id); } }
+        if let Some(m) = &o.meta { for r in m.l_matrix.iter().chain(m.shift.iter()).chain(m.u_vectors.iter()) { for t in r { roots.push(t.id); } } }
+        // ... and so must every constant a data-dependent branch is decided with
+        for e in &d.events { if let Event::Cmp { a, b, .. } = e { roots.push(*a); roots.push(*b); } }
+        let mut seen = vec![false; d.nodes.len()];
+        let mut stack = roots;
+        let lam = o.meta.as_ref().map(|m| m.lambda.v);
+        let mut nlam = 0;
+        while let Some(id) = stack.pop() {
+            if id == tr::NOARG || seen[id as usize] { continue; }
+            seen[id as usize] = true;
+            let n = &d.nodes[id as usize];
+            match n.op {
+                Op::Const(tr::ConstKind::FromF64) => {
+                    let ok = allowed.iter().any(|a| a.to_bits() == n.v.to_bits());
+                    if !ok {
+                        if lam.map(|l| l.to_bits() == n.v.to_bits()).unwrap_or(true) && nlam == 0 { nlam += 1; }
+                        else { evs.push(json!({"ev": "Widen", "value": hexf(n.v), "note": format!("{:e}", n.v)})); }
+                    }
+                }
+                Op::Leaf(..) | Op::Const(_) => {}
+                _ => { stack.push(n.a); stack.push(n.b); }
+            }
+        }
+    }
     evs
 }
 
@@ -190,7 +219,22 @@ pub fn trace_one(s: &dyn DynSampler, g: &InstGraph, x: &[f64], lattice: &[Option
     let of = s.sample_f64(&xf, &edf, &Settings::new(None, true, false));
     let order = of.log.iter().find(|(k, _)| k == "momtrop_feynman_parameter_no_rescaling")
         .and_then(|(_, v)| crate::checks::sample::order_of(&arr(v).iter().map(|x| x.as_f64().unwrap_or(f64::NAN)).collect::<Vec<_>>()));
-    let events = events_of(&dag, out.obs.as_ref(), &out.outcome, &out.log, lattice, order.as_deref());
+    // constants a sample may widen into its results: every number stored in the sampler, D/2 and the exponent
+    // combinations the documented formulas need, the caller's tolerance
+    let mut allowed: Vec<f64> = vec![];
+    fn collect(v: &Value, out: &mut Vec<f64>) {
+        match v { Value::Number(n) => if let Some(f) = n.as_f64() { out.push(f) },
+                  Value::Array(a) => a.iter().for_each(|x| collect(x, out)),
+                  Value::Object(o) => o.values().for_each(|x| collect(x, out)), _ => {} }
+    }
+    let js = s.to_json();
+    collect(&js, &mut allowed);
+    let (dd, dod) = (s.d() as f64, s.dod());
+    let nl = js["table"]["tropical_graph"]["num_loops"].as_f64().unwrap_or(0.0);
+    // (1 - 1e-9: the normalisation guard of sample_edge's last-edge fallback, commit fac9fd0)
+    allowed.extend([dd / 2.0, -(dd / 2.0), dd / 2.0 * nl + dod, -dod, 0.0, 1.0, 2.0, 0.5, 5.0, std::f64::consts::PI, 1.0 - 1.0e-9]);
+    if let Some(t) = set.stability { allowed.push(t); }
+    let events = events_of(&dag, out.obs.as_ref(), &out.outcome, &out.log, lattice, order.as_deref(), &allowed);
     FlowRun { events, outcome: out.outcome }
 }
 
